@@ -1,9 +1,89 @@
 import QecVerif.Model.Wire
+import QecVerif.Model.Matching
 namespace Qec.Drv
-open Qec Qec.Wire
+open Qec Qec.Wire Qec.Matching
+
+/-
+  wire formats of C13
+    ops / graph : entries `a,b,n/d` joined by `;` (`_` = empty); for a graph the order is dict order
+    mates       : pairs `a,b` joined by `;` (`_` = empty)
+    rat list    : `n/d` joined by `;` (`_` = empty)
+-/
+namespace C13
+
+def parseEntry? (s : String) : Option (Node × Node × Rat) :=
+  match s.splitOn "," with
+  | [a, b, w] => do
+      let a ← a.toNat?
+      let b ← b.toNat?
+      let w ← parseRat? w
+      pure (a, b, w)
+  | _ => none
+
+def parseOps? (s : String) : Option (List (Node × Node × Rat)) :=
+  if s == "_" then some [] else (s.splitOn ";").mapM parseEntry?
+
+def parseGraph? (s : String) : Option Graph :=
+  (parseOps? s).map fun l => l.map fun o => ((o.1, o.2.1), o.2.2)
+
+def parsePair? (s : String) : Option Edge :=
+  match s.splitOn "," with
+  | [a, b] => do
+      let a ← a.toNat?
+      let b ← b.toNat?
+      pure (a, b)
+  | _ => none
+
+def parseMates? (s : String) : Option (List Edge) :=
+  if s == "_" then some [] else (s.splitOn ";").mapM parsePair?
+
+def parseRats? (s : String) : Option (List Rat) :=
+  if s == "_" then some [] else (s.splitOn ";").mapM parseRat?
+
+def showGraph (g : Graph) : String :=
+  if g.isEmpty then "_" else
+  ";".intercalate (g.map fun e => toString e.1.1 ++ "," ++ toString e.1.2 ++ "," ++ showRat e.2)
+
+def showCheck (g : Graph) (m : List Edge) : String :=
+  "pm=" ++ showBool (isPerfectMatching g m) ++ " w=" ++ showRat (matchingWeight g m) ++
+    " min=" ++ showOpt showRat (minPMGraph g)
+
+end C13
+open C13
 
 /-- driver ops of property C13 (first protocol token `c13`) -/
 def c13 : List String → Option String
+  | ["build", ops] => do
+      let ops ← parseOps? ops
+      pure (showGraph (build ops))
+  | ["nxin", g] => do
+      let g ← parseGraph? g
+      -- what `mwpm_networkx` does: empty graph ⇒ empty set without calling networkx; else the oracle's arguments
+      if g.isEmpty then pure "empty"
+      else pure (showGraph (nxInput g).1 ++ " mc=" ++ showBool (nxInput g).2)
+  | ["check", g, m] => do
+      let g ← parseGraph? g
+      let m ← parseMates? m
+      pure (showCheck g m)
+  | ["checkops", ops, m] => do
+      let ops ← parseOps? ops
+      let m ← parseMates? m
+      pure (showCheck (build ops) m)
+  | ["minpm", g] => do
+      let g ← parseGraph? g
+      pure (showOpt showRat (minPMGraph g))
+  | ["nodes", g] => do
+      let g ← parseGraph? g
+      pure (showNatList (nodesOf g))
+  | ["w2i", infty, allInt, ws, wt, prod] => do
+      let infty ← parseRat? infty
+      let allInt ← parseBool? allInt
+      let ws ← parseRats? ws
+      let wt ← parseRat? wt
+      let prod ← parseRat? prod
+      let kind := match weightToIntKind infty allInt ws with
+        | .zero => "zero" | .ident => "ident" | .scaled => "scaled"
+      pure (kind ++ " " ++ showOpt toString (weightToInt infty allInt ws wt prod))
   | _ => none
 
 end Qec.Drv
